@@ -57,6 +57,9 @@ func (p pool) get(s *spec) (*wctx, error) {
 	if s.PermSub {
 		wopt.WrapProvider = opdrv.PermissiveSubject
 	}
+	if s.Dyn {
+		wopt.IssuerFn = op.IssuerFromHost("")
+	}
 	w, err := opdrv.NewWorld(wopt)
 	if err != nil {
 		return nil, err
@@ -213,7 +216,7 @@ const (
 func assertion(s *spec, w *opdrv.World, iss string, kind assertionKind) (string, bool) {
 	now := time.Now()
 	iat, exp := now.Add(-5*time.Second), now.Add(10*time.Minute)
-	aud := []string{w.Issuer}
+	aud := []string{issuerFor(s, w)}
 	sub := iss
 	k := ownKey()
 	valid := s.HasKey
@@ -234,6 +237,10 @@ func assertion(s *spec, w *opdrv.World, iss string, kind assertionKind) (string,
 		valid = false
 	case akWrongAud:
 		aud = []string{"https://not-the-op.example"}
+		if s.Dyn && s.WrongVar%2 == 1 {
+			// the issuer this very provider has under its OTHER host name: not the issuer of this request
+			aud = []string{otherIssuerFor(s, w)}
+		}
 		valid = false
 	case akSubMismatch:
 		// signed by the issuer's own key; only the subject differs: "its subject equals its issuer (unless a custom
@@ -381,7 +388,7 @@ func present(s *spec, w *opdrv.World, id string, rq *request) proof {
 		p.claim = claimMixed
 	case pMixedAssert:
 		now := time.Now()
-		a := opdrv.Assertion(otherKey(), otherJID, otherJID, []string{w.Issuer}, now.Add(-5*time.Second), now.Add(10*time.Minute), nil)
+		a := opdrv.Assertion(otherKey(), otherJID, otherJID, []string{issuerFor(s, w)}, now.Add(-5*time.Second), now.Add(10*time.Minute), nil)
 		setAssertion(f, a, true)
 		f.Set("client_id", id)
 		p.claim = claimMixed
@@ -397,7 +404,7 @@ func present(s *spec, w *opdrv.World, id string, rq *request) proof {
 		if s.OtherKid {
 			k = ownKey() // a key that IS registered - for another client id
 		}
-		a := opdrv.Assertion(k, "ghost-"+id, "ghost-"+id, []string{w.Issuer}, now.Add(-5*time.Second), now.Add(10*time.Minute), nil)
+		a := opdrv.Assertion(k, "ghost-"+id, "ghost-"+id, []string{issuerFor(s, w)}, now.Add(-5*time.Second), now.Add(10*time.Minute), nil)
 		setAssertion(f, a, true)
 		p.claim = claimUnknown
 	}
@@ -422,7 +429,7 @@ func bearerAssertion(s *spec, w *opdrv.World, id string, f url.Values) int {
 		kind = akForgedIssuer
 	case pUnknownAssert, pUnknownBasic, pUnknownID:
 		now := time.Now()
-		a := opdrv.Assertion(rogueKey(), "ghost-"+id, "ghost-"+id, []string{w.Issuer}, now.Add(-5*time.Second), now.Add(10*time.Minute), nil)
+		a := opdrv.Assertion(rogueKey(), "ghost-"+id, "ghost-"+id, []string{issuerFor(s, w)}, now.Add(-5*time.Second), now.Add(10*time.Minute), nil)
 		f.Set("assertion", a)
 		return bkUnknownIssuer
 	}
@@ -596,12 +603,33 @@ func place(s *spec, rq *request, p *proof, ownParams []string) {
 	}
 }
 
-func send(w *opdrv.World, router int, rq *request) *opdrv.Resp {
+const altHost = "alt.verif.test"
+
+// issuerFor is the issuer of the case's request: with a host-derived issuer the request may go to the provider's
+// second host name.
+func issuerFor(s *spec, w *opdrv.World) string {
+	if s.Dyn && s.HostB {
+		return "https://" + altHost
+	}
+	return w.Issuer
+}
+
+func otherIssuerFor(s *spec, w *opdrv.World) string {
+	if s.Dyn && s.HostB {
+		return w.Issuer
+	}
+	return "https://" + altHost
+}
+
+func send(s *spec, w *opdrv.World, router int, rq *request) *opdrv.Resp {
 	path := rq.Path
 	if len(rq.Query) > 0 {
 		path += "?" + rq.Query.Encode()
 	}
 	r := w.NewRequest(http.MethodPost, path, rq.Form)
+	if s.Dyn && s.HostB {
+		r.Host = altHost
+	}
 	if rq.Authorization != "" {
 		r.Header.Set("Authorization", rq.Authorization)
 	}
